@@ -151,6 +151,13 @@ func TestC12(t *testing.T) {
 	}
 	c.ParRange(p, int64(len(gi)), func(w *Worker, i int64) { both(w, gi[i]) })
 
+	fpr, _, _ := fpRealisations()
+	p = c.rec.NewPart("fingerprint_realisations", "one or two inputs per realisable blacklist key (see C06), also behind a quote", false, true, "")
+	c.ParRange(p, int64(len(fpr)), func(w *Worker, i int64) {
+		both(w, fpr[i])
+		both(w, "x' "+fpr[i])
+		both(w, "x\" "+fpr[i])
+	})
 	bnd := sqlBoundaryInputs()
 	p = c.rec.NewPart("boundary_inputs", "slot-, clip- and length-boundary inputs (see C06)", false, true, "")
 	c.ParRange(p, int64(len(bnd)), func(w *Worker, i int64) { both(w, bnd[i]) })
